@@ -5,6 +5,7 @@ package interp
 import (
 	"fmt"
 	"go/types"
+	"math"
 )
 
 const ksuidPkg = "github.com/segmentio/ksuid"
@@ -112,4 +113,38 @@ func init() {
 	}
 	externals[backoffPkg+".Retry"] = retry
 	externals[backoffPkg+".RetryNotify"] = retry
+}
+
+// inertConstructors: constructors of OS-backed objects that datamon creates as
+// defaults and that the harnesses always replace (the default localfs backend of
+// cafs.New). They return a zero value; using the result ends the path (nil
+// interface method call).
+func init() {
+	for _, name := range []string{
+		"github.com/spf13/afero.NewOsFs",
+		"github.com/spf13/afero.NewBasePathFs",
+		"github.com/spf13/afero.NewMemMapFs",
+	} {
+		name := name
+		externals[name] = func(fr *frame, args []value) value {
+			fr.i.ps.res.Stubs["inert default constructor "+name] = true
+			return iface{}
+		}
+	}
+}
+
+// math: architecture-specific entry points, on concrete floats (host arithmetic).
+func init() {
+	f1 := func(f func(float64) float64) externalFn {
+		return func(fr *frame, args []value) value { return f(args[0].(float64)) }
+	}
+	externals["math.archCeil"] = f1(math.Ceil)
+	externals["math.archFloor"] = f1(math.Floor)
+	externals["math.archTrunc"] = f1(math.Trunc)
+	externals["math.archSqrt"] = f1(math.Sqrt)
+	externals["math.archLog"] = f1(math.Log)
+	externals["math.archExp"] = f1(math.Exp)
+	externals["math.Ceil"] = f1(math.Ceil)
+	externals["math.Floor"] = f1(math.Floor)
+	externals["math.Sqrt"] = f1(math.Sqrt)
 }
